@@ -223,14 +223,15 @@ CO_ERR COLssLoad(uint32_t *baudrate, uint8_t *nodeId)
 {
     w_cb(CB_LSS_LOAD, 0, 0, 0);
     if (DRV.lss_load_fail) return CO_ERR_LSS_LOAD;
-    if (DRV.lss_has) { *baudrate = DRV.lss_baud; *nodeId = DRV.lss_node; }
+    /* documented contract of the callbacks: a value of 0 means "unchanged" */
+    if (DRV.lss_has) { if (DRV.lss_baud) *baudrate = DRV.lss_baud; if (DRV.lss_node) *nodeId = DRV.lss_node; }
     return CO_ERR_NONE;
 }
 CO_ERR COLssStore(uint32_t baudrate, uint8_t nodeId)
 {
     w_cb(CB_LSS_STORE, baudrate, nodeId, 0);
     if (DRV.lss_store_fail) return CO_ERR_LSS_STORE;
-    DRV.lss_has = 1; DRV.lss_baud = baudrate; DRV.lss_node = nodeId;
+    DRV.lss_has = 1; if (baudrate) DRV.lss_baud = baudrate; if (nodeId) DRV.lss_node = nodeId;
     return CO_ERR_NONE;
 }
 void COIfCanReceive(CO_IF_FRM *frm) { w_cb(CB_IF_RECEIVE, frm->Identifier, frm->DLC, 0); }
